@@ -16,6 +16,7 @@ import LinVerif.Lemmas.C20Wire
 import LinVerif.Lemmas.C20IterMachine
 import LinVerif.Lemmas.C20SeekMachine
 import LinVerif.Lemmas.C20Reuse
+import LinVerif.Lemmas.C20PrevMachine
 import LinVerif.Model.Louds
 import LinVerif.Model.TrieBucket
 import LinVerif.Generated.C20
@@ -188,6 +189,20 @@ theorem prefix_iter_eq_filter {kvs : List KV} {t : Node} (step : Bool) (h : Buil
       rw [hadv]
       exact seekOK_prefix_advance ((sortedKeys_iff kvs).1 h.sorted) hs
 
+/-- the prefix iterator yields EXACTLY the pairs whose key has the prefix — for every prefix: empty,
+equal to a key, longer than every key, ending in one or several 0xff bytes (where the terminator
+label collides with a real label), … -/
+theorem prefix_iter_mem_iff {kvs : List KV} {t : Node} (step : Bool) (h : Buildable kvs) (ht : build kvs = some t)
+    (p : Key) (kv : KV) : kv ∈ prefixIter step t p ↔ kv ∈ kvs ∧ hasPrefix p kv.1 = true := by
+  rw [prefix_iter_eq_filter step h ht p]
+  simp [withPrefix, List.mem_filter]
+
+/-- … in the order of the sorted map, each once -/
+theorem prefix_iter_sorted {kvs : List KV} {t : Node} (step : Bool) (h : Buildable kvs) (ht : build kvs = some t)
+    (p : Key) : Sorted (prefixIter step t p) := by
+  rw [prefix_iter_eq_filter step h ht p]
+  exact List.Pairwise.filter _ ((sortedKeys_iff kvs).1 h.sorted)
+
 /-- the `skipEnd := groupEnd + 4` shortcut of the group scan is sound on sorted labels … -/
 theorem scan_shortcut_sound (cur : Nat) (labels : List Nat) (hmono : labels.Pairwise (· ≤ ·))
     (hlo : ∀ l ∈ labels, cur ≤ l) : scanGroup cur labels = (labels.takeWhile (· == cur)).length :=
@@ -298,6 +313,62 @@ theorem built_prefixIter {step : Bool} {t : Node} (h : Built t) (p : Key) :
     prefixIter step t p = withPrefix p (iter t) := by
   obtain ⟨kvs, hb, hbt⟩ := h
   rw [prefix_iter_eq_filter step hb hbt p, iter_eq_sorted hb hbt]
+
+/-- **bucket lookup = lookup in the union map, for ANY list of tries**: no ordering among the tries
+(they are NOT one sorted run: every flush adds a trie over the whole key range) — only that each
+came out of `Build` and no key occurs twice; in particular the answer does not depend on the
+order of the tries -/
+theorem bucket_lookup_any_order_partial (eon : Bool) {ts ts' : List Node} (hperm : ts'.Perm ts)
+    (hts : ∀ t ∈ ts, Built t) (hd : DistinctKeys (ts.flatMap iter))
+    (hff : eon = false → ∀ v, ([255], v) ∉ ts.flatMap iter) (key : Key) :
+    bucketGet eon ts' key = lookup key (sortKVs (ts.flatMap iter)) ∧
+    bucketGet eon ts' key = bucketGet eon ts key := by
+  have hp : (ts'.flatMap iter).Perm (ts.flatMap iter) := List.Perm.flatMap_right iter hperm
+  have hd' : DistinctKeys (ts'.flatMap iter) := hd.perm hp.symm
+  have h1 := bucket_get_eq_lookup_partial eon (r := ts') (fun t ht => hts t (hperm.mem_iff.1 ht)) hd'
+    (fun he v hv => hff he v (hp.mem_iff.1 hv)) key
+  have h2 := bucket_get_eq_lookup_partial eon hts hd hff key
+  have h3 : lookup key (sortKVs (ts'.flatMap iter)) = lookup key (sortKVs (ts.flatMap iter)) :=
+    lookup_perm (hd'.perm (sortKVs_perm _).symm) (((sortKVs_perm _).trans hp).trans (sortKVs_perm _).symm) key
+  exact ⟨by rw [h1, h3], by rw [h1, h3, h2]⟩
+
+theorem bucketPrefix_eq_filter (step : Bool) {ts : List Node} (hts : ∀ t ∈ ts, Built t) (p : Key) :
+    bucketPrefix step ts p = (ts.flatMap iter).filter (fun kv => hasPrefix p kv.1) := by
+  unfold bucketPrefix
+  rw [filter_flatMap]
+  exact flatMap_congr_mem (fun t ht => built_prefixIter (hts t ht) p)
+
+/-- **`FindValuesByLike` over any list of tries** = the values of the pairs of the union with the
+prefix that pass the check (every trie is scanned, none is skipped) -/
+theorem bucket_find_eq_union_filter (step : Bool) {ts : List Node} (hts : ∀ t ∈ ts, Built t) (p : Key)
+    (check : Key → Bool) :
+    bucketFind step ts p check =
+      ((ts.flatMap iter).filter (fun kv => hasPrefix p kv.1 && check kv.1)).map (·.2) := by
+  unfold bucketFind
+  rw [bucketPrefix_eq_filter step hts p, List.filter_filter]
+  congr 2
+  funext kv
+  exact Bool.and_comm _ _
+
+/-- **`Suggest` over any list of tries** = the first `limit` keys (at least one) with the prefix of
+the sorted union -/
+theorem bucket_suggest_eq_union (step : Bool) {ts : List Node} (hts : ∀ t ∈ ts, Built t)
+    (hd : DistinctKeys (ts.flatMap iter)) (p : Key) (limit : Nat) :
+    bucketSuggest step ts p limit =
+      (((sortKVs (ts.flatMap iter)).filter (fun kv => hasPrefix p kv.1)).map (·.1)).take (max limit 1) := by
+  unfold bucketSuggest
+  rw [bucketPrefix_eq_filter step hts p]
+  congr 2
+  -- two strictly sorted permutations of the same pairs are equal
+  have hs1 : Sorted (sortKVs ((ts.flatMap iter).filter (fun kv => hasPrefix p kv.1))) :=
+    sortKVs_sorted (List.Pairwise.filter _ hd)
+  have hs2 : Sorted ((sortKVs (ts.flatMap iter)).filter (fun kv => hasPrefix p kv.1)) :=
+    List.Pairwise.filter _ (sortKVs_sorted hd)
+  have hperm : (sortKVs ((ts.flatMap iter).filter (fun kv => hasPrefix p kv.1))).Perm
+      ((sortKVs (ts.flatMap iter)).filter (fun kv => hasPrefix p kv.1)) :=
+    (sortKVs_perm _).trans (List.Perm.filter _ (sortKVs_perm _).symm)
+  exact List.Perm.eq_of_pairwise (fun a b _ _ hab hba => by
+    have := keyLt_asymm hab; rw [this] at hba; cases hba) hs1 hs2 hperm
 
 /-- **like dispatch** (`indexKVStore.FindValuesByLike` over the flushed bucket): whatever branch the
 pattern selects — everything, prefix iteration from `p` + `HasPrefix`, full iteration +
@@ -442,9 +513,9 @@ level order (node ids) and `flatItems t` the labels in vector order,
 * at a label without child, `valuePos(pos)` indexes exactly that label's value.
 These compose (with the label scan, `nodeSize`, and the prefix/suffix lookup through the
 hasPrefix/hasSuffix rank vectors) into `louds_get_refines_tree` and (with the stack machine) into
-`louds_iter_refines_tree` below. `louds_seek_refines_tree`
-and `louds_prefix_refines_tree` close `Seek` and prefix iteration. What is NOT proved (tied by the
-correspondence op `sriter` instead): backward iteration (`Prev` / `SeekToLast`). -/
+`louds_iter_refines_tree` below. `louds_seek_refines_tree`,
+`louds_prefix_refines_tree` and `louds_riter_refines_tree` close `Seek`, prefix iteration and backward
+iteration: nothing of layer 2 is left to the correspondence alone. -/
 theorem louds_refines_tree_partial {kvs : List KV} {t : Node} (h : Buildable kvs) (ht : build kvs = some t) :
     (∀ n, n < (bfs t).length → firstLabelPos (encode t) n = offset t n) ∧
     (∀ pos l c, (flatItems t)[pos]? = some (.child l c) → (bfs t)[childNodeID (encode t) pos]? = some c) ∧
@@ -537,6 +608,31 @@ theorem louds_seek_current_source {kvs : List KV} {t : Node} (h : Buildable kvs)
 theorem louds_prefix_eq_filter {kvs : List KV} {t : Node} (step : Bool) (h : Buildable kvs)
     (ht : build kvs = some t) (p : Key) : LoudsIter.prefixAll step (encode t) p = withPrefix p kvs := by
   rw [louds_prefix_refines_tree step h ht p, prefix_iter_eq_filter step h ht p]
+
+/-- **backward iteration over the vectors**: `SeekToLast` then `Prev` until invalid (the `pos == 0`
+exit, the climb while the louds bit of the current label is set, `setAt(level, pos-1)`,
+`moveToRightMostKey` through `lastLabelPos`) enumerates the sorted pairs in reverse -/
+theorem louds_riter_refines_tree {kvs : List KV} {t : Node} (h : Buildable kvs) (ht : build kvs = some t) :
+    LoudsIter.riterAll (encode t) = kvs.reverse := by
+  obtain ⟨t', ht', hit, hwf, _⟩ := build_spec h
+  rw [ht] at ht'; cases ht'
+  rw [riterAll_eq_reverse hwf, hit]
+
+/-- `Prev` from the end enumerates exactly the reverse of what `Next` from the start enumerates -/
+theorem prev_is_reverse_of_next {kvs : List KV} {t : Node} (h : Buildable kvs) (ht : build kvs = some t) :
+    LoudsIter.riterAll (encode t) = (LoudsIter.iterAll (encode t)).reverse := by
+  rw [louds_riter_refines_tree h ht, (louds_iter_refines_tree h ht).2]
+
+/-- `SeekToLast` is valid and stands on the greatest key (the last pair of the sorted map) -/
+theorem seekToLast_is_max {kvs : List KV} {t : Node} (h : Buildable kvs) (ht : build kvs = some t) :
+    (LoudsIter.seekToLast (encode t)).valid = true ∧
+      kvs.getLast? = some (LoudsIter.key (encode t) (LoudsIter.seekToLast (encode t)),
+        LoudsIter.value (encode t) (LoudsIter.seekToLast (encode t))) := by
+  obtain ⟨t', ht', hit, hwf, _⟩ := build_spec h
+  rw [ht] at ht'; cases ht'
+  have := seekToLast_last hwf
+  rw [hit] at this
+  exact this
 
 /-- the encoded label / hasChild / louds / value vectors are the per-node rows concatenated in
 level order (what `trie.Init` / `bitVector.Init` do with the builder's levels) -/
@@ -695,6 +791,20 @@ theorem gen_like_calls : Generated.C20.likeCalls =
     ["strings.HasPrefix", "strings.HasSuffix", "strutil.String2ByteSlice", "s.findValuesByLike", "len",
      "s.findValuesByLike", "s.findValuesByLike", "len", "s.findValuesByLike", "s.findValue"] := rfl
 
+/-- the loops of `TrieBucket.GetValue` / `FindValuesByLike` / `FindValuesByRegexp` / `Suggest` /
+`GetValues` (= `bucketGet`, `bucketFind`, `bucketSuggest`): every trie of `b.kvs` is visited in turn,
+the only early exits are "found" in `GetValue` and "limit reached" in `Suggest` — no bisecting, no stop
+at a trie without a match -/
+theorem gen_bucket_loops :
+    Generated.C20.getValueLoop = ["range b.kvs {", "if ok {", "return", "}", "}", "return"] ∧
+    Generated.C20.findLikeLoop = ["range b.kvs {", "for itr.Valid() {", "if check(itr.Key(), subKey) {", "}", "}",
+      "}", "return"] ∧
+    Generated.C20.findRegexpLoop = ["range b.kvs {", "for itr.Valid() {", "if rp.Match(itr.Key()) {", "}", "}",
+      "}", "return"] ∧
+    Generated.C20.suggestLoop = ["range b.kvs {", "}", "for it.HasNext() {", "if len(rs) >= limit {", "return", "}",
+      "}", "return"] ∧
+    Generated.C20.getValuesLoop = ["range b.kvs {", "}", "return"] := ⟨rfl, rfl, rfl, rfl, rfl⟩
+
 /-- re-used buffers: `bitVector.Init` zeroes the whole `v.bits` and `selectVector.Init` ranges over the
 whole `v.bits` (what `TrieReuse.bufInit` / `selInitReuse` model); `Reset` keeps the builder's
 vectors, `initWriteContext` re-initialises all four -/
@@ -719,6 +829,14 @@ example : (build sampleKVs).map iter = some sampleKVs := by decide
 example : (build sampleKVs).map (fun t => getNode false t [97, 98]) = some (some 4) := by decide
 example : (build sampleKVs).map (fun t => getNode false t [97, 98, 0]) = some none := by decide
 example : (build sampleKVs).map (fun t => prefixIter false t [97, 98]) = some [([97, 98], 4), ([97, 98, 99], 5)] := by decide
+-- prefixes with trailing 0xff bytes (terminator label vs. real label 0xff), both Seek variants
+example : (build sampleKVs).map (fun t => prefixIter true t [97, 255]) = some [([97, 255], 6)] := by decide
+example : (build sampleKVs).map (fun t => prefixIter true t [255]) = some [([255], 9), ([255, 255], 10)] := by decide
+example : (build sampleKVs).map (fun t => prefixIter true t [255, 255]) = some [([255, 255], 10)] := by decide
+example : (build sampleKVs).map (fun t => prefixIter false t [255, 255, 255]) = some [] := by decide
+example : (build sampleKVs).map (fun t => prefixIter true t [97, 98, 255]) = some [] := by decide
+example : (build sampleKVs).map (fun t => LoudsIter.prefixAll true (Louds.encode t) [255]) =
+    some [([255], 9), ([255, 255], 10)] := by decide
 
 /-! ### where the code violates the property -/
 namespace Neg
@@ -746,6 +864,21 @@ theorem seek_past_end_lands_on_last :
     ∃ t, build [([97], 5), ([98, 99], 6)] = some t ∧
       (seek t [99]).2 = [([98, 99], 6)] ∧ lowerBound [99] [([97], 5), ([98, 99], 6)] = [] :=
   ⟨_, rfl, by decide, by decide⟩
+
+/-- a bucket whose tries are not one sorted run: {"a","z"} and {"m"} (two flushes) -/
+def twoTries : Option (List Node) := TrieBucket.buildAll [[([97], 1), ([122], 3)], [([109], 2)]]
+
+/-- bisecting on the tries' first keys is wrong: "z" is in the first trie, the bisect looks into the
+second (whose first key "m" is the last one `≤ "z"`); the real `GetValue` loop finds it -/
+theorem bucket_bisect_on_first_key_wrong :
+    twoTries.map (fun ts => (TrieBucket.bucketGetBisect true ts [122], TrieBucket.bucketGet true ts [122])) =
+      some (none, some 3) := by decide
+
+/-- stopping at the first trie without a match is wrong: the prefix "m" matches nothing in the first
+trie but a key of the second; the real loop scans every trie -/
+theorem bucket_stop_at_first_nonmatching_trie_wrong :
+    twoTries.map (fun ts => (TrieBucket.bucketPrefixStopEarly true ts [109], TrieBucket.bucketPrefix true ts [109])) =
+      some ([], [([109], 2)]) := by decide
 
 /-- … and the scan shortcut is NOT sound on unsorted labels (so `Build` really needs sorted keys) -/
 theorem scan_shortcut_unsorted : scanGroup 1 [1, 2, 3, 4, 1] = 5 ∧ ([1, 2, 3, 4, 1].takeWhile (· == 1)).length = 1 := by
